@@ -350,6 +350,17 @@ def m_vec_push(it, st, args, info):
         else: it.write_addr(st, a[1], ('pushed', cur, args[1]))
     return UNIT
 
+def m_vec_extend(it, st, args, info):
+    a = args[0]
+    if a[0] == 'ref':
+        cur = strip_named(it.read_addr(st, a[1]))
+        other = strip_named(it.deref(st, args[1]))
+        if other[0] in ('iter', 'iterpos'): other = other[1] if other[0] == 'iter' else other[1][1]
+        if cur[0] == 'vec' and other[0] == 'vec': it.write_addr(st, a[1], ('vec', cur[1] + other[1]))
+        else: it.write_addr(st, a[1], ('extended', cur, other))
+        if info['name'].endswith('::append') and args[1][0] == 'ref': it.write_addr(st, args[1][1], ('vec', ()))
+    return UNIT
+
 def m_vec_len(it, st, args, info):
     v = strip_named(it.deref(st, args[0]))
     if v[0] == 'vec': return C(len(v[1]))
@@ -567,6 +578,8 @@ EXACT = {
     'std::borrow::Borrow::borrow': m_identity_keepref,
     'std::string::String::as_str': m_identity,
     'std::string::String::as_bytes': m_identity,
+    'core::str::<impl str>::as_bytes': m_identity,
+    'core::str::<impl str>::as_str': m_identity,
     'std::vec::Vec::<T, A>::as_slice': m_identity,
     'cosmwasm_std::Uint128::u128': m_identity,
     'cosmwasm_std::Uint128::new': m_identity,
@@ -628,6 +641,7 @@ EXACT = {
     'std::convert::From::from': m_from,
     'std::vec::Vec::<T>::new': m_vec_new,
     'std::vec::Vec::<T, A>::push': m_vec_push,
+    'std::iter::Extend::extend': m_vec_extend, 'std::vec::Vec::<T, A>::append': m_vec_extend, 'std::vec::Vec::<T, A>::extend_from_slice': m_vec_extend,
     'std::vec::Vec::<T, A>::len': m_vec_len,
     'std::vec::Vec::<T, A>::is_empty': m_is_empty,
     'core::slice::<impl [T]>::is_empty': m_is_empty,
